@@ -28,6 +28,7 @@ theorem inst_iff_den : ∀ (n : Nat) (t : Ty) (v : Val), t.w ≤ n → Ty.WF cfg
     | float lo hi => unfold inst Den; cases v <;> simp
     | bool b => unfold inst Den; cases b <;> cases v <;> simp <;> exact eq_comm
     | tspan r => unfold inst Den; cases v <;> simp [Rng.contains_iff]
+    | tstamp r => unfold inst Den; cases v <;> simp [Rng.contains_iff]
     | strSz r => unfold inst Den; cases v <;> simp [Rng.contains_iff]
     | strVal s => unfold inst Den; cases v <;> simp <;> exact eq_comm
     | enum vs ci =>
